@@ -78,7 +78,19 @@ def main():
             for _ in range(reps): cases.append({"op": op, "l": qty(k)})
     for _ in range(60 * reps):
         cases.append({"op": "in_unit", "l": qty(), "r": unit()})
-    r = impl("quantity_worker.py", {"cases": cases})
+    # the same numeric magnitude as int, then float, then Decimal through the same root / power (type must follow the operand)
+    for n in (2, 3, -2):
+        for base in (4, 27, 64):
+            for k in ("int", "float", "dec", "float", "dec", "int"):
+                u = [[None, "meter", abs(n) * 2]]
+                cases.append({"op": "root", "l": {"t": "qty", "m": [k, str(base), "1"], "u": u}, "r": n})
+                cases.append({"op": "pow", "l": {"t": "qty", "m": [k, str(base), "1"], "u": [[None, "second", 1]]}, "r": n})
+    # renderings before arithmetic: every pair of sample units, so that a rendering that interns a wrong unit poisons later results
+    prel = [(a, b) for i, a in enumerate(UNITS) for b in UNITS[i:] if len(a) == 1 and len(b) == 1 and a[0][0] is None and b[0][0] is None]
+    r = impl("quantity_worker.py", {"cases": cases, "prelude": prel})
+    for bu in r.get("inconsistent_units", []):
+        c.violation("inconsistent-unit:" + json.dumps(bu["f"]), "a unit produced during the run reports a dimension that is not the product of its factors' dimensions",
+                    {"unit": bu, "how": "render units with a compound denominator (str/format '/'/html), then multiply quantities whose unit is that denominator"})
     recs = r["results"]
     exp = impl("export_worker.py", {})
     S = Sizes(exp)
@@ -104,7 +116,8 @@ def main():
                 key = "rtruediv-keeps-unit" if (op == "div" and l["t"] == "num" and rr["t"] == "qty") else f"dim:{op}:{l['t']}:{(rr or {}).get('t')}"
                 c.violation(key, f"{op} of {l['t']} and {(rr or {}).get('t')}: result dimension {got}, expected {want}", repl)
             mk = [v["m"][0] for v in (l, rr) if v and v["t"] in ("num", "qty")]
-            if "dec" in mk and res["m"][0] != "dec" and op != "root":
+            positive = l and l["t"] == "qty" and len(l["m"]) == 3 and int(l["m"][1]) > 0
+            if "dec" in mk and res["m"][0] != "dec" and (op != "root" or positive):
                 c.violation(f"decimal:{op}", f"{op} with a Decimal operand returned a {res['m'][0]} magnitude", repl)
             if op in ("add", "sub") and res["u"]["o"] != l["u"]["o"]:
                 c.violation(f"leftunit:{op}", f"{op} did not return the left operand's unit", repl)
